@@ -12,7 +12,9 @@ From BioSeq Require Import Bits Codec Tables Spec SeqModel KmerModel VM SeqProof
 Import ListNotations.
 
 (* registers, the current k-mer (storage type, symbols) once one has been made, observations *)
-Record lstate := { lregs : list (list N); lk : option (N * list N); lout : list (list N) }.
+Record lstate := { lregs : list (list N); lk : option (N * list N);
+                   lct : list (list N * N);   (* custom codon table: codon -> amino, first match wins *)
+                   lout : list (list N) }.
 
 Definition ibounds (n : nat) (f : N) (a b : nat) : nat * nat :=
   match f with
@@ -47,14 +49,16 @@ Definition lget (l : lstate) (r : N) : option (list N) := nth_error (lregs l) (N
 Definition lslice (l : lstate) (d : sd) : option (list N) :=
   match d with SD r rs => match lget l r with Some xs => lapply xs rs | None => None end end.
 Definition lemit (l : lstate) (o : list N) : lstate :=
-  {| lregs := lregs l; lk := lk l; lout := o :: lout l |}.
+  {| lregs := lregs l; lk := lk l; lct := lct l; lout := o :: lout l |}.
 Definition lpush (l : lstate) (xs : list N) : lstate :=
-  {| lregs := lregs l ++ [xs]; lk := lk l; lout := lout l |}.
+  {| lregs := lregs l ++ [xs]; lk := lk l; lct := lct l; lout := lout l |}.
 Definition lsetk (l : lstate) (w : N) (ks : list N) : lstate :=
-  {| lregs := lregs l; lk := Some (w, ks); lout := lout l |}.
+  {| lregs := lregs l; lk := Some (w, ks); lct := lct l; lout := lout l |}.
+Definition lsetct (l : lstate) (t : list (list N * N)) : lstate :=
+  {| lregs := lregs l; lk := lk l; lct := t; lout := lout l |}.
 Definition lset (l : lstate) (r : N) (xs : list N) : option lstate :=
   match lset_nth (lregs l) (N.to_nat r) xs with
-  | Some rs => Some {| lregs := rs; lk := lk l; lout := lout l |}
+  | Some rs => Some {| lregs := rs; lk := lk l; lct := lct l; lout := lout l |}
   | None => None
   end.
 
@@ -102,8 +106,38 @@ Definition ltrim (C : codec) (v : list N) : list N + N :=
   let stop := match rposition C rest with Some p => start + p + 1 | None => start end in
   lparse C (firstn (stop - start) rest).
 
+(* custom codon tables on lists of symbols (HashMap::from keeps the last value of a repeated key) *)
+Fixpoint ldecode_entries (fuel : nat) (l : list N) (acc : list (list N * N)) : list (list N * N) :=
+  match fuel with
+  | O => acc
+  | S f => match l with
+           | [] => acc
+           | n :: t =>
+               let cs := firstn (N.to_nat n) t in
+               match skipn (N.to_nat n) t with
+               | a :: t' => ldecode_entries f t' ((cs, a) :: acc)
+               | [] => acc
+               end
+           end
+  end.
+Fixpoint lct_lookup (t : list (list N * N)) (q : list N) : option N :=
+  match t with
+  | [] => None
+  | (k, a) :: r => if list_eqb k q then Some a else lct_lookup r q
+  end.
+Fixpoint lct_dedupe (t : list (list N * N)) (seen : list (list N)) : list (list N * N) :=
+  match t with
+  | [] => []
+  | (k, a) :: r => if existsb (list_eqb k) seen then lct_dedupe r seen
+                   else (k, a) :: lct_dedupe r (k :: seen)
+  end.
+Definition lct_preimages (t : list (list N * N)) (a : N) : list (list N) :=
+  map fst (filter (fun e => N.eqb (snd e) a) (lct_dedupe t [])).
+
 Section LM.
 Variable C : codec.            (* the tables of the codec: characters, complement, mask *)
+(* the regenerated conversion / translation tables, as in VM.run *)
+Variables (conv_i conv_t : N -> res N) (ic tc ac : codec) (stdt : list tres) (stdc : list (N * cres)).
 Let Bw := c_bits C.
 Let gb := gbC C.
 
@@ -129,6 +163,10 @@ Definition lk_make (l : lstate) (k : nat) (w : N) (xs : list N) : option lstate 
 (* the K-mers of a sequence: the integers of its windows of width K, in order *)
 Definition lkmers (k : nat) (xs : list N) : list N :=
   map (fun j => kint (sub xs j k)) (seq 0 (length xs + 1 - k)).
+
+(* Standard::to_amino on a codon given as symbols *)
+Definition ltoamino (ws : list N) : option N :=
+  if (length ws =? 3) && (Bw * 3 <=? 8) then un_bits ac (kint ws) else None.
 
 Definition lm_step (l : lstate) (o : op) : option lstate :=
   match o with
@@ -480,6 +518,78 @@ Definition lm_step (l : lstate) (o : op) : option lstate :=
       end
   (* a SeqArray holding cs: four views of it, hash / equality with itself and a slice, k-mer
      equality for one-word arrays, IUPAC contains *)
+  (* translation: a codon is three symbols; its amino acid is the amino codec's decoding of the
+     packed value (DNA), or the regenerated IUPAC table entry *)
+  | OXlate m d =>
+      match lslice l d with
+      | Some xs =>
+          match m with
+          | 2%N => match ltoamino xs with Some a => Some (lemit l [a]) | None => None end
+          | 0%N =>
+              match mapM ltoamino (map (fun i => sub xs i 3) (seq 0 (length xs + 1 - 3))) with
+              | Some r => Some (lemit l r)
+              | None => None
+              end
+          | 1%N =>
+              match mapM ltoamino (map (fun k => sub xs (k * 3) 3) (seq 0 (length xs / 3))) with
+              | Some r => Some (lemit l r)
+              | None => None
+              end
+          | _ => None
+          end
+      | None => None
+      end
+  | OXlateI d =>
+      match lslice l d with
+      | Some xs =>
+          if negb (length xs =? 3) then Some (lemit l [2%N])
+          else Some (lemit l (obs_tres (nth (match xs with
+                                              | [c0; c1; c2] => N.to_nat (c0 + 16 * c1 + 256 * c2)
+                                              | _ => 0
+                                              end) stdt TPanic)))
+      | None => None
+      end
+  | OXCodon a =>
+      Some (lemit l (match find (fun p => N.eqb (fst p) a) stdc with
+                     | Some (_, COk c) => 0%N :: c
+                     | Some (_, CAmbiguous) => [1%N]
+                     | Some (_, CInvalid) => [3%N]
+                     | _ => [4%N]
+                     end))
+  (* custom codon tables *)
+  | OCtNew flat =>
+      let t := ldecode_entries (length flat) flat [] in
+      if forallb (fun e => forallb gb (fst e)) t then Some (lsetct l t) else None
+  | OCtQ d =>
+      match lslice l d with
+      | Some q => Some (lemit l (match lct_lookup (lct l) q with Some a => [0%N; a] | None => [2%N] end))
+      | None => None
+      end
+  | OCtR a =>
+      Some (lemit l (match lct_preimages (lct l) a with
+                     | [] => [3%N]
+                     | [k] => 0%N :: lenc k
+                     | _ => [1%N]
+                     end))
+  (* conversion to another codec: the symbol map at every position *)
+  | OConv t d =>
+      match lslice l d with
+      | Some xs =>
+          let (f, C') := match t with 0%N => (conv_i, ic) | _ => (conv_t, tc) end in
+          if codec_okb C' then
+            match mapM f xs with
+            | Some ys =>
+                if forallb (gbC C') ys then
+                  match mapM (to_char C') ys with
+                  | Some ds => Some (lemit l (N.of_nat (length ys) :: ys ++ ds))
+                  | None => None
+                  end
+                else None
+            | None => None
+            end
+          else None
+      | None => None
+      end
   | OArr cs d =>
       match lslice l d with
       | Some q =>
@@ -501,7 +611,6 @@ Definition lm_step (l : lstate) (o : op) : option lstate :=
           else None
       | None => None
       end
-  | _ => None
   end.
 
 Fixpoint lm_run (l : lstate) (ops : list op) : option lstate :=
@@ -512,16 +621,39 @@ Fixpoint lm_run (l : lstate) (ops : list op) : option lstate :=
 
 End LM.
 
+(* observations of a sequence over ANOTHER codec (the target of a conversion) *)
+Section Target.
+Variable C' : codec.
+Hypothesis OK' : codec_ok C'.
+Lemma target_obs ys :
+  forallb (gbC C') ys = true ->
+  iter C' (encode (c_bits C') ys) = Some ys /\
+  display C' (encode (c_bits C') ys) = mapM (to_char C') ys /\
+  slen C' (encode (c_bits C') ys) = length ys.
+Proof.
+  intros V. rewrite forallb_forall in V.
+  assert (Hs : Forall (smallc C') ys).
+  { apply Forall_forall. intros x Hx. specialize (V x Hx). unfold gbC in V.
+    apply andb_prop in V. destruct V as [V _]. unfold smallc, small. apply N.ltb_lt. exact V. }
+  assert (Hc : canonl C' ys).
+  { unfold canonl. apply Forall_forall. intros x Hx. specialize (V x Hx). unfold gbC in V.
+    apply andb_prop in V. destruct V as [_ V]. apply canonb_spec. exact V. }
+  pose proof (iter_spec C' OK' ys Hs Hc) as I. split; [exact I|]. split.
+  - unfold display. rewrite I. reflexivity.
+  - apply (slen_encode C' OK').
+Qed.
+End Target.
+
 Section Refines.
 Variable C : codec.
 Variable dbg : bool.
 Hypothesis OK : codec_ok C.
-Variables (ci ct : N -> res N) (ic tc ac : codec) (stdt : list tres) (stdc : list (N * cres)).
+Variables (cvi cvt : N -> res N) (ic tc ac : codec) (stdt : list tres) (stdc : list (N * cres)).
 Local Notation B := (c_bits C).
 
 Local Notation gbC := (gbC C).
 Definition good (x : N) : Prop := smallc C x /\ canon C x.
-Definition vstep := step C dbg ci ct ic tc ac stdt stdc.
+Definition vstep := step C dbg cvi cvt ic tc ac stdt stdc.
 
 Definition kabs (st : state) (k : option (N * list N)) : Prop :=
   match k with
@@ -533,7 +665,8 @@ Definition kabs (st : state) (k : option (N * list N)) : Prop :=
 
 Definition abs (st : state) (l : lstate) : Prop :=
   regs st = map (encode B) (lregs l) /\ out st = lout l /\ Forall (Forall good) (lregs l) /\
-  kabs st (lk l).
+  kabs st (lk l) /\
+  (ct st = map (fun e => (encode B (fst e), snd e)) (lct l) /\ Forall (fun e => Forall good (fst e)) (lct l)).
 
 
 (* ---------- helpers on lists ---------- *)
@@ -656,20 +789,20 @@ Proof.
   destruct (lset_nth (lregs l) (N.to_nat r) xs) as [rs|] eqn:E; [|discriminate].
   inversion H; subst; clear H. unfold set_reg, nn. rewrite Hr.
   rewrite (set_nth_map _ _ _ _ E). cbn [bind]. eexists. split; [reflexivity|].
-  unfold abs. cbn [regs out lregs lout lk]. split; [reflexivity|]. split; [assumption|].
+  unfold abs. cbn [regs out ct kk kw kv lregs lout lk lct]. split; [reflexivity|]. split; [assumption|].
   split; [eapply set_nth_good; eassumption | exact Hk].
 Qed.
 
 Lemma push_abs st l xs : abs st l -> Forall good xs -> abs (push_reg st (encode B xs)) (lpush l xs).
 Proof.
-  intros [Hr [Ho [Hg Hk]]] Hx. unfold abs, push_reg, lpush. cbn [regs out lregs lout lk].
+  intros [Hr [Ho [Hg Hk]]] Hx. unfold abs, push_reg, lpush. cbn [regs out ct kk kw kv lregs lout lk lct].
   split; [rewrite Hr, map_app; reflexivity|]. split; [assumption|]. split; [|exact Hk].
   apply Forall_app. split; [assumption|]. constructor; [assumption|constructor].
 Qed.
 
 Lemma emit_abs st l o : abs st l -> abs (emit st o) (lemit l o).
 Proof.
-  intros [Hr [Ho [Hg Hk]]]. unfold abs, emit, lemit. cbn [regs out lregs lout lk].
+  intros [Hr [Ho [Hg Hk]]]. unfold abs, emit, lemit. cbn [regs out ct kk kw kv lregs lout lk lct].
   split; [assumption|]. split; [now rewrite Ho|]. split; [assumption|exact Hk].
 Qed.
 
@@ -838,7 +971,8 @@ Lemma setk_abs st l n w ks :
   n = N.of_nat (length ks) ->
   abs (set_k st n w (kval C ks)) (lsetk l w ks).
 Proof.
-  intros [Hr [Ho [Hg _]]] G L1 L2 ->. unfold abs, set_k, lsetk. cbn [regs out lregs lout lk kabs kk kw kv].
+  intros [Hr [Ho [Hg [_ [Hc1 Hc2]]]]] G L1 L2 ->. unfold abs, set_k, lsetk.
+  cbn [regs out ct lregs lout lk lct kabs kk kw kv].
   repeat split; assumption.
 Qed.
 
@@ -884,6 +1018,126 @@ Proof.
   - exact A.
 Qed.
 
+(* ---------- translation ---------- *)
+Lemma ltoamino_sound ws :
+  Forall good ws -> to_amino C ac (encode B ws) = ltoamino C ac ws.
+Proof.
+  intros G. unfold to_amino, ltoamino. rewrite (slen_encode C OK).
+  destruct (length ws =? 3) eqn:L; cbn [andb assert bind]; [|reflexivity].
+  apply Nat.eqb_eq in L. unfold to_u8. rewrite length_encode, L.
+  assert (P : (1 <=? B * 3) = true) by (apply Nat.leb_le; pose proof (Bpos C OK); lia).
+  rewrite P. cbn [andb]. destruct (B * 3 <=? 8); cbn [assert bind]; [|reflexivity].
+  unfold ret. cbn [bind]. unfold kint. rewrite of_bits_encode by (apply good_small; exact G).
+  reflexivity.
+Qed.
+
+Lemma mapM_toamino ws :
+  Forall (Forall good) ws ->
+  mapM (to_amino C ac) (map (encode B) ws) = mapM (ltoamino C ac) ws.
+Proof.
+  induction ws as [|w ws IH]; intros G; cbn [map mapM]; [reflexivity|].
+  inversion G as [|? ? Gw Gt]; subst. rewrite (ltoamino_sound _ Gw), (IH Gt). reflexivity.
+Qed.
+
+Lemma subs_good xs (idx : list nat) w : Forall good xs -> Forall (Forall good) (map (fun i => sub xs i w) idx).
+Proof.
+  intros G. apply Forall_forall. intros y Hy. apply in_map_iff in Hy. destruct Hy as [i [<- _]].
+  apply Forall_sub. exact G.
+Qed.
+
+(* ---------- custom codon tables ---------- *)
+Definition enc_entry (e : list N * N) : bits * N := (encode B (fst e), snd e).
+
+Lemma decode_enc fuel : forall l acc,
+  decode_entries C fuel l (map enc_entry acc) = map enc_entry (ldecode_entries fuel l acc).
+Proof.
+  induction fuel as [|f IH]; intros l acc; cbn [decode_entries ldecode_entries]; [reflexivity|].
+  destruct l as [|n t]; [reflexivity|]. unfold nn.
+  destruct (skipn (N.to_nat n) t) as [|a t']; [reflexivity|].
+  change ((encode B (firstn (N.to_nat n) t), a) :: map enc_entry acc)
+    with (map enc_entry ((firstn (N.to_nat n) t, a) :: acc)).
+  apply IH.
+Qed.
+
+Definition keys_good (t : list (list N * N)) : Prop := Forall (fun e => Forall good (fst e)) t.
+
+Lemma keys_goodb t : forallb (fun e => forallb gbC (fst e)) t = true -> keys_good t.
+Proof.
+  intros H. rewrite forallb_forall in H. apply Forall_forall. intros e He. apply gbC_goods. auto.
+Qed.
+
+Lemma lookup_enc t q :
+  keys_good t -> Forall good q ->
+  ct_lookup (map enc_entry t) (encode B q) = lct_lookup t q.
+Proof.
+  intros Gt Gq. induction t as [|[k a] r IH]; cbn [map ct_lookup lct_lookup enc_entry fst snd]; [reflexivity|].
+  inversion Gt as [|? ? Gk Gr]; subst. cbn [fst] in Gk.
+  change (bits_eqb (encode B k) (encode B q)) with (seq_eqb (encode B k) (encode B q)).
+  rewrite (eqb_enc k q Gk Gq). destruct (list_eqb k q); [reflexivity|]. apply IH. exact Gr.
+Qed.
+
+Lemma existsb_enc k seen :
+  Forall good k -> Forall (Forall good) seen ->
+  existsb (bits_eqb (encode B k)) (map (encode B) seen) = existsb (list_eqb k) seen.
+Proof.
+  intros Gk Gs. induction seen as [|x r IH]; cbn [map existsb]; [reflexivity|].
+  inversion Gs as [|? ? Gx Gr]; subst.
+  change (bits_eqb (encode B k) (encode B x)) with (seq_eqb (encode B k) (encode B x)).
+  rewrite (eqb_enc k x Gk Gx), (IH Gr). reflexivity.
+Qed.
+
+Lemma dedupe_enc t : forall seen,
+  keys_good t -> Forall (Forall good) seen ->
+  ct_dedupe (map enc_entry t) (map (encode B) seen) = map enc_entry (lct_dedupe t seen).
+Proof.
+  induction t as [|[k a] r IH]; intros seen Gt Gs; cbn [map ct_dedupe lct_dedupe enc_entry fst snd];
+    [reflexivity|].
+  inversion Gt as [|? ? Gk Gr]; subst. cbn [fst] in Gk.
+  rewrite (existsb_enc k seen Gk Gs). destruct (existsb (list_eqb k) seen).
+  - apply IH; assumption.
+  - cbn [map enc_entry fst snd].
+    change (encode B k :: map (encode B) seen) with (map (encode B) (k :: seen)).
+    rewrite IH; [reflexivity|assumption|constructor; assumption].
+Qed.
+
+Lemma dedupe_good t : forall seen, keys_good t -> keys_good (lct_dedupe t seen).
+Proof.
+  induction t as [|[k a] r IH]; intros seen Gt; cbn [lct_dedupe]; [constructor|].
+  inversion Gt as [|? ? Gk Gr]; subst.
+  destruct (existsb (list_eqb k) seen); [apply IH; exact Gr|].
+  constructor; [exact Gk|apply IH; exact Gr].
+Qed.
+
+Lemma filter_enc (p : N -> bool) t :
+  filter (fun e => p (snd e)) (map enc_entry t) = map enc_entry (filter (fun e => p (snd e)) t).
+Proof.
+  induction t as [|[k a] r IH]; cbn [map filter enc_entry fst snd]; [reflexivity|].
+  destruct (p a); cbn [map enc_entry fst snd]; rewrite IH; reflexivity.
+Qed.
+
+Lemma preimages_enc t a :
+  keys_good t ->
+  ct_preimages (map enc_entry t) a = map (encode B) (lct_preimages t a) /\
+  Forall (Forall good) (lct_preimages t a).
+Proof.
+  intros Gt. unfold ct_preimages, lct_preimages.
+  change (@nil bits) with (map (encode B) []).
+  rewrite (dedupe_enc t [] Gt) by constructor.
+  rewrite (filter_enc (fun x => N.eqb x a)). rewrite !map_map. split; [reflexivity|].
+  pose proof (dedupe_good t [] Gt) as Gd.
+  apply Forall_forall. intros k Hk. apply in_map_iff in Hk. destruct Hk as [e [<- He]].
+  apply filter_In in He. destruct He as [He _].
+  unfold keys_good in Gd. rewrite Forall_forall in Gd. apply Gd. exact He.
+Qed.
+
+Lemma setct_abs st l t :
+  abs st l -> keys_good t -> abs (set_ct st (map enc_entry t)) (lsetct l t).
+Proof.
+  intros [Hr [Ho [Hg [Hk _]]]] Gt. unfold abs, set_ct, lsetct.
+  cbn [regs out ct kk kw kv lregs lout lk lct].
+  repeat split; try assumption.
+Qed.
+
 Ltac slice_in A H :=
   match type of H with
   | context [lslice ?l ?d] =>
@@ -904,7 +1158,7 @@ Ltac kmer_in A H :=
       let w := fresh "w" in let ks := fresh "ks" in let LK := fresh "LK" in
       destruct (lk l) as [[w ks]|] eqn:LK; [|try discriminate];
       [let KA := fresh "KA" in
-       pose proof A as [_ [_ [_ KA]]]; rewrite LK in KA; cbn [kabs] in KA;
+       pose proof A as [_ [_ [_ [KA _]]]]; rewrite LK in KA; cbn [kabs] in KA;
        let K1 := fresh "K1" in let K2 := fresh "K2" in let K3 := fresh "K3" in
        let K4 := fresh "K4" in let K5 := fresh "K5" in let K6 := fresh "K6" in
        destruct KA as [K1 [K2 [K3 [K4 [K5 K6]]]]];
@@ -914,7 +1168,7 @@ Ltac done_emit A H :=
   inversion H; subst; clear H; eexists; split; [reflexivity | apply emit_abs; exact A].
 
 Lemma vstep_refines st l o l' :
-  abs st l -> lm_step C l o = Some l' -> exists st', vstep st o = Some st' /\ abs st' l'.
+  abs st l -> lm_step C cvi cvt ic tc ac stdt stdc l o = Some l' -> exists st', vstep st o = Some st' /\ abs st' l'.
 Proof.
   intros A H. unfold vstep.
   destruct o; cbn [lm_step edit_of] in H; try discriminate; cbn [step].
@@ -1154,6 +1408,25 @@ Proof.
     { destruct m as [|[p|p|]]; try (apply (slice_abs _ _ _ _ A P)). apply (get_abs _ _ _ _ A P). }
     destruct P' as [P1 P2]. rewrite P1. cbn [bind]. rewrite S. cbn [bind].
     rewrite (contains_spec C OK) by (auto using good_small). done_emit A H.
+  - (* conversion to IUPAC / text *)
+    slice_in A H. rewrite S. cbn [bind].
+    destruct t as [|p]; cbn beta iota in H |- *.
+    + destruct (codec_okb ic) eqn:OKb; [|discriminate]. pose proof (codec_okb_sound ic OKb) as OKi.
+      unfold convert. rewrite (iter_spec C OK) by (auto using good_small, good_canon). cbn [bind].
+      destruct (mapM cvi xs) as [ys|]; [|discriminate]. cbn [bind].
+      destruct (forallb (Refine.gbC ic) ys) eqn:V; [|discriminate].
+      destruct (target_obs ic OKi ys V) as [T1 [T2 T3]].
+      unfold ret at 1. cbn [bind]. fold (encode (c_bits ic) ys). rewrite T1. cbn [bind]. rewrite T2.
+      destruct (mapM (to_char ic) ys) as [ds|]; [|discriminate]. cbn [bind]. rewrite T3.
+      done_emit A H.
+    + destruct (codec_okb tc) eqn:OKb; [|discriminate]. pose proof (codec_okb_sound tc OKb) as OKt.
+      unfold convert. rewrite (iter_spec C OK) by (auto using good_small, good_canon). cbn [bind].
+      destruct (mapM cvt xs) as [ys|]; [|discriminate]. cbn [bind].
+      destruct (forallb (Refine.gbC tc) ys) eqn:V; [|discriminate].
+      destruct (target_obs tc OKt ys V) as [T1 [T2 T3]].
+      unfold ret at 1. cbn [bind]. fold (encode (c_bits tc) ys). rewrite T1. cbn [bind]. rewrite T2.
+      destruct (mapM (to_char tc) ys) as [ds|]; [|discriminate]. cbn [bind]. rewrite T3.
+      done_emit A H.
   - (* all registers *)
     pose proof A as [Hr [Ho [Hg _]]]. rewrite Hr. rewrite (flat_lencodes_enc _ Hg). cbn [bind].
     rewrite map_length. done_emit A H.
@@ -1168,6 +1441,51 @@ Proof.
     rewrite (slen_encode C OK).
     rewrite (contains_spec C OK) by (auto using good_small).
     unfold list_eqb at 3. done_emit A H.
+  - (* translation of DNA: one codon, windows of three, chunks of three *)
+    slice_in A H. rewrite S. cbn [bind].
+    destruct m as [|[[p|p|]|[p|p|]|]]; try discriminate.
+    + rewrite (windows_spec C OK) by lia. cbn [bind].
+      rewrite <- (map_map (fun i => sub xs i 3) (encode B)).
+      rewrite mapM_toamino by (apply subs_good; exact G).
+      destruct (mapM (ltoamino C ac) (map (fun i => sub xs i 3) (seq 0 (length xs + 1 - 3)))) as [r|];
+        [|discriminate]. cbn [bind]. done_emit A H.
+    + rewrite (ltoamino_sound _ G). destruct (ltoamino C ac xs) as [a|]; [|discriminate].
+      cbn [bind]. done_emit A H.
+    + rewrite (chunks_spec_seq C OK) by lia. cbn [bind].
+      rewrite <- (map_map (fun k => sub xs (k * 3) 3) (encode B)).
+      rewrite mapM_toamino.
+      * destruct (mapM (ltoamino C ac) (map (fun k => sub xs (k * 3) 3) (seq 0 (length xs / 3)))) as [r|];
+          [|discriminate]. cbn [bind]. done_emit A H.
+      * apply Forall_forall. intros y Hy. apply in_map_iff in Hy. destruct Hy as [i [<- _]].
+        apply Forall_sub. exact G.
+  - (* translation of an IUPAC codon *)
+    slice_in A H. rewrite S. cbn [bind]. rewrite (slen_encode C OK).
+    unfold std_index. rewrite (codes_encode (Bpos C OK)) by (apply good_small; exact G).
+    unfold nn. destruct (negb (length xs =? 3)); done_emit A H.
+  - (* reverse translation *)
+    destruct (find (fun p => (fst p =? a)%N) stdc) as [[x [c| | |]]|]; done_emit A H.
+  - (* custom table construction *)
+    destruct (forallb (fun e => forallb gbC (fst e)) (ldecode_entries (length flat) flat [])) eqn:V;
+      [|discriminate].
+    inversion H; subst; clear H. eexists. split; [reflexivity|].
+    change (@nil (bits * N)) with (map enc_entry []). rewrite decode_enc.
+    apply setct_abs; [exact A|apply keys_goodb; exact V].
+  - (* custom table query *)
+    slice_in A H. rewrite S. cbn [bind].
+    pose proof A as [_ [_ [_ [_ [Hc1 Hc2]]]]]. rewrite Hc1.
+    change (fun e : list N * N => (encode B (fst e), snd e)) with enc_entry.
+    rewrite (lookup_enc _ _ Hc2 G).
+    destruct (lct_lookup (lct l) xs); done_emit A H.
+  - (* custom table reverse query *)
+    pose proof A as [_ [_ [_ [_ [Hc1 Hc2]]]]]. rewrite Hc1.
+    change (fun e : list N * N => (encode B (fst e), snd e)) with enc_entry.
+    destruct (preimages_enc (lct l) a Hc2) as [P1 P2]. rewrite P1.
+    destruct (lct_preimages (lct l) a) as [|k [|k2 r]]; cbn [map].
+    + done_emit A H.
+    + inversion P2 as [|? ? Gk _]; subst.
+      rewrite (slen_encode C OK). rewrite (codes_encode (Bpos C OK)) by (apply good_small; exact Gk).
+      done_emit A H.
+    + done_emit A H.
   - (* Kmer::try_from(slice) *)
     slice_in A H. rewrite S. cbn [bind]. unfold nn. eapply make_sound; eassumption.
   - (* Kmer::unsafe_from *)
@@ -1354,33 +1672,33 @@ Qed.
 
 (* every history: the observations of the bit-level VM are those of the list machine *)
 Theorem vm_refines_list_machine ops : forall st l l',
-  abs st l -> lm_run C l ops = Some l' ->
-  run_ops C dbg ci ct ic tc ac stdt stdc st ops = (rev (lout l'), false).
+  abs st l -> lm_run C cvi cvt ic tc ac stdt stdc l ops = Some l' ->
+  run_ops C dbg cvi cvt ic tc ac stdt stdc st ops = (rev (lout l'), false).
 Proof.
   induction ops as [|o t IH]; intros st l l' A H; cbn [lm_run run_ops] in *.
   - inversion H; subst. destruct A as [_ [Ho _]]. now rewrite Ho.
-  - destruct (lm_step C l o) as [l1|] eqn:E; [|discriminate].
+  - destruct (lm_step C cvi cvt ic tc ac stdt stdc l o) as [l1|] eqn:E; [|discriminate].
     destruct (vstep_refines _ _ _ _ A E) as [st1 [V A1]]. unfold vstep in V. rewrite V.
     eapply IH; eassumption.
 Qed.
 
-Lemma abs_init : abs init {| lregs := []; lk := None; lout := [] |}.
-Proof. unfold abs, init. cbn. repeat split. constructor. Qed.
+Lemma abs_init : abs init {| lregs := []; lk := None; lct := []; lout := [] |}.
+Proof. unfold abs, init. cbn. repeat split; constructor. Qed.
 
 Corollary script_refines ops l' :
-  lm_run C {| lregs := []; lk := None; lout := [] |} ops = Some l' ->
-  run C dbg ci ct ic tc ac stdt stdc ops = (rev (lout l'), false).
+  lm_run C cvi cvt ic tc ac stdt stdc {| lregs := []; lk := None; lct := []; lout := [] |} ops = Some l' ->
+  run C dbg cvi cvt ic tc ac stdt stdc ops = (rev (lout l'), false).
 Proof. intros H. unfold run. eapply vm_refines_list_machine; [apply abs_init|exact H]. Qed.
 
 (* and the registers at the end are exactly the packed images of the list machine's registers *)
 Theorem vm_registers_refine ops : forall st l l',
-  abs st l -> lm_run C l ops = Some l' ->
+  abs st l -> lm_run C cvi cvt ic tc ac stdt stdc l ops = Some l' ->
   exists st', fold_left (fun s o => match s with Some x => vstep x o | None => None end) ops (Some st)
               = Some st' /\ abs st' l'.
 Proof.
   induction ops as [|o t IH]; intros st l l' A H; cbn [lm_run fold_left] in *.
   - inversion H; subst. eexists. split; [reflexivity|exact A].
-  - destruct (lm_step C l o) as [l1|] eqn:E; [|discriminate].
+  - destruct (lm_step C cvi cvt ic tc ac stdt stdc l o) as [l1|] eqn:E; [|discriminate].
     destruct (vstep_refines _ _ _ _ A E) as [st1 [V A1]]. rewrite V. eapply IH; eassumption.
 Qed.
 
@@ -1389,15 +1707,18 @@ End Refines.
 (* ---------- used by the correspondence check: how many of the scripts it ran lie within the scope
    of the refinement theorem (the list machine is defined on them), and on how many of those the
    implementation's observations equal the list machine's directly ---------- *)
-Definition lm_obs (C : codec) (ops : list op) : option (list (list N)) :=
-  match lm_run C {| lregs := []; lk := None; lout := [] |} ops with
+Definition lm_obs (C : codec) (cvi cvt : N -> res N) (ic tc ac : codec) (stdt : list tres)
+    (stdc : list (N * cres)) (ops : list op) : option (list (list N)) :=
+  match lm_run C cvi cvt ic tc ac stdt stdc {| lregs := []; lk := None; lct := []; lout := [] |} ops with
   | Some l => Some (rev (lout l))
   | None => None
   end.
 
-Definition lm_scope (C : codec) (cs : list (list op * (list (list N) * bool))) : list N :=
-  let inscope := filter (fun c => match lm_obs C (fst c) with Some _ => true | None => false end) cs in
-  let agree := filter (fun c => match lm_obs C (fst c) with
+Definition lm_scope (C : codec) (cvi cvt : N -> res N) (ic tc ac : codec) (stdt : list tres)
+    (stdc : list (N * cres)) (cs : list (list op * (list (list N) * bool))) : list N :=
+  let lo := lm_obs C cvi cvt ic tc ac stdt stdc in
+  let inscope := filter (fun c => match lo (fst c) with Some _ => true | None => false end) cs in
+  let agree := filter (fun c => match lo (fst c) with
                                 | Some o => obs_eqb (o, false) (snd c)
                                 | None => false
                                 end) cs in
